@@ -26,7 +26,7 @@ var replayers = map[string]func(raw json.RawMessage) (string, error){}
 func registerReplay[T any](kind string, check func(c *T) string) {
 	replayers[kind] = func(raw json.RawMessage) (string, error) {
 		var c T
-		if err := json.Unmarshal(raw, &c); err != nil {
+		if err := lib.DecodeCase(raw, &c); err != nil {
 			return "", err
 		}
 		return check(&c), nil
